@@ -21,6 +21,8 @@ Circ(a, b) == LET d == (a - b) % Q IN IF d <= Q - d THEN d ELSE Q - d
 CloseE(p, q, eps) == Circ(p[1], q[1]) <= eps /\ Circ(p[2], q[2]) <= eps /\ Circ(p[3], q[3]) <= eps
 Close(p, q) == CloseE(p, q, Eps)
 Ops(sg) == [k \in 1..Len(Ref[sg].ops) |-> [R |-> Ref[sg].ops[k].R, t |-> Ref[sg].ops[k].t]]
+PosOf(sg, letter) == LET k == CHOOSE k \in 1..Len(Tab[sg].pos) : Tab[sg].pos[k].letter = letter IN Tab[sg].pos[k]
+
 
 ---------------------------------------------------------------------------
 \* C07: Wyckoff sets are exactly the symmetry orbits of the conventional cell
@@ -46,13 +48,23 @@ ArraysAgree(e) == /\ Len(e.let_conv) = e.conv.n /\ Len(e.eq_conv) = e.conv.n
 \* in the same setting: identity transformation, zero origin shift)
 LettersIndependent(e) == (e.ind_conv.identity /\ e.ind_conv.number = e.number) =>
                             \A a \in AllAtoms(e) : e.ind_conv.letters[a] = e.let_conv[a]
+\* every atom lies on (an expression of) the Wyckoff position whose letter it carries, and the set has that
+\* position's multiplicity - so the letter cannot belong to a more special or a displaced position.
+\* (n . (p - c)) = 0 mod lattice for every small integer n annihilating the expression's column space.
+OnExpr(p, M, c) == \A n \in Ann(M) : Circ(Dot(n, << (p[1] - c[1] * QU) % Q, (p[2] - c[2] * QU) % Q, (p[3] - c[3] * QU) % Q >>) % Q, 0) <= 6 * Eps
+TransOf(sg) == {<<0, 0, 0>>} \cup {Tab[sg].trans[k] : k \in 1..Len(Tab[sg].trans)}
+LiesOn(e, a, letter) == LET p == PosOf(e.number, letter) IN
+   \E x \in 1..Len(p.nm) : \E t \in TransOf(e.number) : OnExpr(e.conv.pos[a], p.nm[x], VAdd(p.nc[x], t))
+AtomsLieOnTheirLetter(e) == \A a \in AllAtoms(e) : LiesOn(e, a, e.let_conv[a])
+LetterMultiplicity(e) == \A j \in 1..Len(e.sets) :
+   Len(e.sets[j].idx) = PosOf(e.number, e.sets[j].letter).nexpr * (Len(Tab[e.number].trans) + 1)
 V07(e) == IF ~SetsPartition(e) THEN "SetsPartition" ELSE IF ~SetUniform(e) THEN "SetUniform"
+          ELSE IF ~LetterMultiplicity(e) THEN "LetterMultiplicity" ELSE IF ~AtomsLieOnTheirLetter(e) THEN "AtomsLieOnTheirLetter"
           ELSE IF ~Multiplicity(e) THEN "Multiplicity" ELSE IF ~ArraysAgree(e) THEN "ArraysAgree"
           ELSE IF ~SetIsOrbit(e) THEN "SetIsOrbit" ELSE IF ~LettersIndependent(e) THEN "LettersIndependent" ELSE "ok"
 
 ---------------------------------------------------------------------------
 \* C08: reported free parameters regenerate the atoms of their set
-PosOf(sg, letter) == LET k == CHOOSE k \in 1..Len(Tab[sg].pos) : Tab[sg].pos[k].letter = letter IN Tab[sg].pos[k]
 VarsOf(sg, letter) == ToSet(PosOf(sg, letter).vars)
 Reported(ps) == (IF ps.x # -1 THEN {"x"} ELSE {}) \cup (IF ps.y # -1 THEN {"y"} ELSE {}) \cup (IF ps.z_ # -1 THEN {"z"} ELSE {})
 ParamsReturned(e) == e.psets_error = ""
